@@ -4,6 +4,7 @@ import (
 	"fmt"
 	"strings"
 	"sync"
+	"unsafe"
 
 	"github.com/openacid/low/bitstr"
 
@@ -128,7 +129,7 @@ func init() {
 			}
 			return []string{"release", "noopt", "nooptl", "race"}
 		},
-		Required: []string{"long-run/calls>=100000-per-function", "arguments-in-read-only-memory", "cmp/equal", "cmp/prefix", "cmp/differ", "cmp/same-bytelen", "cmp/diff-bytelen", "cmp/empty-vs-nonempty", "upto/a-shorter", "upto/a-equal", "upto/a-longer",
+		Required: []string{"source-string>=2^28-bytes", "long-run/calls>=100000-per-function", "arguments-in-read-only-memory", "cmp/equal", "cmp/prefix", "cmp/differ", "cmp/same-bytelen", "cmp/diff-bytelen", "cmp/empty-vs-nonempty", "upto/a-shorter", "upto/a-equal", "upto/a-longer",
 			"upto/empty-b", "upto/unaligned-b", "upto/dirty-spare-capacity", "cmp/prefix-view-same-base-address", "new/aligned-empty-after-scribble", "upto/long>=8", "upto/short<8", "str/site=arg", "str/site=field", "str/site=elem", "str/site=closure", "str/site=map", "str/site=substr"},
 		Families: func(c *mon.Config) []mon.Family {
 			rows := 4051
@@ -151,8 +152,57 @@ func init() {
 				{Name: "universe-rows", Env: 2, N: rows / step, Run: func(w *mon.W, idx int) { c09Row(w, idx*step) }},
 				{Name: "keyzoo", Env: 4, N: c.Pick(12000, 1500000) / step, Run: c09KeyZoo},
 				lrFamily(c09LongRun),
+				{Name: "huge-source-string", NoCold: true, N: b2i(c.Base() == "release" || c.Base() == "go126"), Run: c09HugeSource},
 			}
 		},
+	})
+}
+
+// c09HugeSource (round 12): source strings of 2^28 bytes and more - 8*len(s) no longer fits an int32, every int32 range
+// is inside the string (a "lenient" clamp of toBit to int32(len(s))<<3 was seeded). The strings are views of zero pages
+// that are never touched except for their first and last kilobyte; only the release-type builds run this.
+func c09HugeSource(w *mon.W, _ int) {
+	for _, n := range []int{1<<28 - 8, 1 << 28, 1<<28 + 8, 1 << 29} {
+		buf := make([]byte, n)
+		r := w.Rng
+		for i := 0; i < 1024; i++ {
+			buf[i] = r.Byte()
+		}
+		s := unsafe.String(&buf[0], n)
+		top := 1<<31 - 1
+		if 8*n < top {
+			top = 8 * n
+		}
+		var encs []*c09Enc
+		for _, ft := range [][2]int{{0, 0}, {0, 5}, {0, 12}, {0, 13}, {7, 23}, {8, 8}, {1000, 1003}, {top - 100, top}, {top - 8, top - 1}, {1 << 30, 1<<30 + 17}} {
+			if ft[0] < 0 || ft[1] > top {
+				continue
+			}
+			w.Op, w.A, w.B, w.C = "New(huge source string)", int64(ft[0]), int64(ft[1]), int64(n)
+			enc := bitstr.New(s, int32(ft[0]), int32(ft[1]))
+			// expected text from the bytes the range covers only
+			lo, hi := ft[0]/8, (ft[1]+7)/8
+			e := &c09Enc{s: "<huge>", from: ft[0], to: ft[1], enc: enc, bits: c09Text(s[lo:hi], ft[0]-8*lo, ft[1]-8*lo)}
+			if l := int(bitstr.Len(enc)); l != len(e.bits) {
+				w.Fail("Len/huge-source-string", mon.D{"source_bytes": n, "from": ft[0], "to": ft[1], "encoding": fmt.Sprintf("%x", enc), "got": l, "expected": len(e.bits)})
+				return
+			}
+			w.Eval(1)
+			encs = append(encs, e)
+		}
+		for _, a := range encs {
+			for _, b := range encs {
+				if !c09CheckCmp(w, a, b) {
+					return
+				}
+			}
+		}
+		w.Tick()
+	}
+	w.Bucket("source-string>=2^28-bytes")
+	w.Distinct(gen.Hash64(0x2b28, 4))
+	w.Sample(func() interface{} {
+		return mon.D{"source_strings_of_bytes": []int{1<<28 - 8, 1 << 28, 1<<28 + 8, 1 << 29}}
 	})
 }
 
